@@ -444,7 +444,32 @@ func ruleTruncateCounts(c *Ctx, ix *PkgIndex, rule, short string) {
 			return true
 		}
 		for _, p := range [][2]ast.Expr{{be.X, be.Y}, {be.Y, be.X}} {
-			if sameVar(info, p[0], limit) {
+			// the limit itself, or a budget derived from it (n := limit - count, the parameter of an expanded helper)
+			isLimit := sameVar(info, p[0], limit)
+			if !isLimit {
+				// an expression over the limit (limit - count, after a helper's budget parameter was substituted)
+				if _, isID := unparen(p[0]).(*ast.Ident); !isID {
+					ast.Inspect(p[0], func(m ast.Node) bool {
+						if id, ok := m.(*ast.Ident); ok && info.Uses[id] == types.Object(limit) {
+							isLimit = true
+						}
+						return true
+					})
+				}
+			}
+			if !isLimit {
+				if lv, ok := objOf(info, p[0]).(*types.Var); ok && !lv.IsField() {
+					if d := ix.FG(fn).LocalDef(lv); d != nil {
+						ast.Inspect(d, func(m ast.Node) bool {
+							if id, isID := m.(*ast.Ident); isID && info.Uses[id] == types.Object(limit) {
+								isLimit = true
+							}
+							return true
+						})
+					}
+				}
+			}
+			if isLimit {
 				if v, ok := objOf(info, p[1]).(*types.Var); ok && !v.IsField() && v != limit {
 					counters[v] = true
 				}
